@@ -26,7 +26,8 @@ impl Topology {
             if let Some(cp) = (*nedge).checked_pow(i as u32) {
                 dindex[i] = index / cp % *nedge;
             } else {
-                return None;
+                // nedge^i exceeds every index: the coordinate in this dimension is 0
+                dindex[i] = 0;
             }
         }
         Some(dindex)
